@@ -48,7 +48,9 @@ def joint_A(M, b, Dy, Dx):
     return A, a
 
 
-def log_conditional_ob(prog, cls):
+def log_conditional_ob(prog, cls, paired=False):
+    """paired: the conditional has one component per component of q (R equal to the measure's, the second case of the property's quantifier;
+    added after the mutation sweep: the guard `self.R != 1 and self.R != p_yx.R` could be edited to reject it unnoticed)"""
     owner, _ = prog.method(cls, "integrate_log_conditional")
     anchor = f"{C}::{owner}.integrate_log_conditional"
 
@@ -56,17 +58,18 @@ def log_conditional_ob(prog, cls):
         I = build.new_interp()
         R, Dy = sym("R"), sym("Dy")
         Dx = Dy if drivers.is_identity(cls) else sym("Dx")
-        c = build.conditional(I, D(1), Dy, Dx, "c", cls=cls)
+        Rc = R if paired else D(1)
+        c = build.conditional(I, Rc, Dy, Dx, "c", cls=cls)
         q = build.pdf(I, R, Dy + Dx, "q")
         got = I.call_method(c, "integrate_log_conditional", [q])
-        M, b, S, L, lds = cond_params(c, D(1), Dy, Dx)
+        M, b, S, L, lds = cond_params(c, Rc, Dy, Dx)
         A, a = joint_A(None if drivers.is_identity(cls) else M, b, Dy, Dx)
         LA = nf.einsum("ryw,rwz->ryz", L, A)
         La = None if a is None else nf.einsum("ryw,rw->ry", L, a)
         quad = _inner([(A, a), (LA, La)], q.f["mu"], q.f["Sigma"])
         ref = nf.scale(nf.add(quad, nf.add(lds, nf.const(Dy * LOG2PI))), D(-1) / 2)
         return nf.diff(got, ref, what="integrate_log_conditional"), dict(funcs=funcs_of(I), construct=anchor)
-    return Ob(f"logcond/{cls}", run, "integrate_log_conditional(q) == E_q[ln N(y; Mx+b, Sigma)] for an arbitrary Gaussian q over (y,x) (Wick on the residual [I,-M]z - b)", anchor, group="logcond")
+    return Ob(f"logcond/{cls}" + ("/R=R" if paired else ""), run, "integrate_log_conditional(q) == E_q[ln N(y; Mx+b, Sigma)] for an arbitrary Gaussian q over (y,x) (Wick on the residual [I,-M]z - b)", anchor, group="logcond")
 
 
 def log_conditional_y_ob(prog, cls, ctx, as_callable):
@@ -229,6 +232,8 @@ def obligations(tier):
                 obs.append(log_factor_ob(mk, fk, fb))
     for cls in drivers.COND_CLASSES:
         obs.append(log_conditional_ob(prog, cls))
+        if not drivers.is_identity(cls):       # the identity-mean classes raise NotImplementedError("Only implemented for R=1.") for R > 1: outside their domain
+            obs.append(log_conditional_ob(prog, cls, paired=True))
         for ctx in ("1/N", "N/N"):
             for cal in (False, True):
                 obs.append(log_conditional_y_ob(prog, cls, ctx, cal))
